@@ -24,8 +24,63 @@ pub fn dispatch(cmd: &str, args: &Args) -> Option<i32> {
         "c10-header" => header(args),
         "c10-pipe" => pipe(args),
         "c10-file" => one_file(args),
+        "c10-growth" => growth(args),
         _ => return None,
     })
+}
+
+// ------------------------------------------------------------------------------------------
+// resource growth: the conversions must return for every input, so their cost must not explode on a
+// small one.  Family P(n): characters 0..n, and for every i != j below n the program of character i
+// has the step (/LIG/ D j D max(i,j)+1).  It is free of cycles (every step inserts a larger
+// character), 11 KB of property list for n = 24 - but the number of lig/kern steps TeX would take on
+// the pair (0, 1) doubles with every two characters.  Knuth's PLtoTF and TFtoPL only classify pairs
+// (PLtoTF.2014.116ff) and never carry the steps out.  Measured here: CPU time of this thread in
+// clock ticks (/proc/thread-self/stat, 100 per second), which does not depend on the load.
+// ------------------------------------------------------------------------------------------
+fn family_pl(n: usize) -> String {
+    let mut s = String::new();
+    for i in 0..=n {
+        s.push_str(&format!("(CHARACTER D {i} (CHARWD R 1.0))\n"));
+    }
+    s.push_str("(LIGTABLE\n");
+    for i in 0..n {
+        s.push_str(&format!(" (LABEL D {i})\n"));
+        for j in 0..n {
+            if i != j {
+                s.push_str(&format!(" (/LIG/ D {j} D {})\n", i.max(j) + 1));
+            }
+        }
+        s.push_str(" (STOP)\n");
+    }
+    s.push_str(" )\n");
+    s
+}
+
+fn thread_cpu_ticks() -> u64 {
+    let stat = std::fs::read_to_string("/proc/thread-self/stat").unwrap_or_default();
+    let rest = stat.rsplit_once(')').map(|x| x.1).unwrap_or("");
+    let f: Vec<&str> = rest.split_whitespace().collect();
+    // after the command name: state is field 0, utime field 11, stime field 12
+    f.get(11).and_then(|x| x.parse::<u64>().ok()).unwrap_or(0) + f.get(12).and_then(|x| x.parse::<u64>().ok()).unwrap_or(0)
+}
+
+fn growth(args: &Args) -> i32 {
+    install_hook();
+    let mut out = Out::new(args.str("out"));
+    for n in [16usize, 20, 24] {
+        let text = family_pl(n);
+        let t0 = thread_cpu_ticks();
+        let r = catch(|| run_pl_to_tfm(&text));
+        let ticks = thread_cpu_ticks() - t0;
+        let (ok, len) = match &r {
+            Ok((bytes, _)) => (true, bytes.len()),
+            Err(_) => (false, 0),
+        };
+        out.line(&json!({"ev":"growth","n":n,"pl_len":text.len(),"cpu_ticks":ticks,"ok":ok,"tfm_len":len}));
+    }
+    out.flush();
+    0
 }
 
 // ------------------------------------------------------------------------------------------
